@@ -2111,13 +2111,13 @@ class TagNode(_ElementWrappingNode, NodeBase):
                 new_node = new_tag_node(
                     local_name=node_test.local_name,
                     attributes=None,
-                    namespace=namespaces.get(node_test.prefix),
+                    namespace=namespaces.get(node_test.prefix or ""),
                 )
 
                 for prefix, local_name, value in step._derived_attributes:
-                    new_node.attributes[(namespaces.get(prefix) or "", local_name)] = (
-                        value
-                    )
+                    new_node.attributes[
+                        (namespaces.get(prefix) if prefix else "", local_name)
+                    ] = value
 
                 node.append_children(new_node)
                 node = new_node
